@@ -45,6 +45,16 @@ CHECKS = {
              "sequence of literal spans extracted from the output must equal that of the input.",
         note="Trusted: the span extractor (vf/spans.py: Reader A + a hand-written tag scanner), markdown-it-py for the fence-sufficiency clause.",
         ref="DESIGN.md §2 C04"),
+    "C06": dict(
+        level="exploration",
+        technique="bounded-exhaustive enumeration of tag/construct paragraphs x {adjacent, space, newline} separators x every critical width x modes, and of tag-delimited blocks; gap-profile and line-integrity oracle",
+        text="Every paragraph over template tags, comments, inline HTML, code spans, links and words with every separator in {adjacent, space, "
+             "newline}, in list/quote contexts, at every critical width (so every construct is wider than the width for some case) and width 0, "
+             "in both modes: each construct must come out intact on one line, in order, and each gap must carry whitespace iff it did in the "
+             "input; a tag alone on an unindented line must stay so. Every tag-delimited block (4 tag syntaxes x 9 contents x blank-line and "
+             "indentation variants x widths x modes) must keep its tag lines alone and unindented, keep the list/table, and separate it from the tags by blank lines.",
+        note="Trusted: literal token search in the output; Reader A for the list/table clause. Indented closing tags are outside the property (only required to survive).",
+        ref="DESIGN.md §2 C06"),
     "C05": dict(
         level="model_checking",
         technique="explicit-state model of the greedy filler, exhaustive trace enumeration + replay of every trace against the implementation",
